@@ -1,4 +1,6 @@
 import Proofs.Machine.Claims
+import Proofs.Ingest
+import Proofs.AnsiGit
 /-!
 C04 — text that is not diff/blame/grep output passes through byte for byte.
 
@@ -67,5 +69,128 @@ theorem after_hunk_partial (cfg : Cfg) (m m' : M) (l : L) (hn : newLineState m.s
 
 /-- … and the negation of byte-exactness for a line with a TAB, as a concrete witness -/
 example : Text.expand 4 "a\tb".toList ≠ "a\tb".toList := by decide
+
+/-! ### `ingest_line`: from the input line to `raw_line` (what pass-through rows print) and `line`
+
+Model `DeltaModel/Ingest.lean` over the escape-sequence model `DeltaModel/Ansi.lean` (builder
+b-ansi). Valid UTF-8 input; the test that removes a `\r` and the truncation guard are read from
+the source on every run (`Generated.crRemovedWhen`, `Generated.truncGuard`). -/
+
+section IngestLine
+open Ansi
+
+/-- `ingest_identity`: a line without `\r` that is not longer than `max-line-length` (or with the
+limit switched off) is taken as it is; `line` is the stripped line. -/
+theorem ingest_identity (U : Uni) (maxLen : Nat) (sym raw : Bytes) (hcr : (0x0d : UInt8) ∉ raw)
+    (hlen : maxLen = 0 ∨ raw.length ≤ maxLen) :
+    Ingest.ingest U maxLen sym raw = (strip raw).map fun l => (raw, l) := by
+  have h1 : Ingest.removeCr U raw = .ok raw := by
+    simp [Ingest.removeCr, Ingest.lastCr_none_of_not_mem raw hcr]
+  have h2 := Ingest.not_truncates_of_small maxLen raw hlen
+  simp only [Ingest.ingest, h1, h2]
+  cases strip raw <;> rfl
+
+/-- `ingest_cr_only_zero_width_tail`: when the line is not truncated and `raw_line` differs from
+the input, then exactly the last `\r` was removed, and what follows it has display width 0 (only
+escape sequences: the CRLF remnant git leaves when it colours a line with CRLF ending). -/
+theorem ingest_cr_only_zero_width_tail (U : Uni) (maxLen : Nat) (sym raw r l : Bytes)
+    (h : Ingest.ingest U maxLen sym raw = .ok (r, l)) (hlen : maxLen = 0 ∨ raw.length ≤ maxLen)
+    (hne : r ≠ raw) :
+    ∃ a t, raw = a ++ [0x0d] ++ t ∧ (0x0d : UInt8) ∉ t ∧ measure U t = .ok 0 ∧ r = a ++ t := by
+  unfold Ingest.ingest at h
+  cases h1 : Ingest.removeCr U raw with
+  | error m => simp [h1] at h
+  | ok r1 =>
+    have hle := Ingest.removeCr_length_le U raw r1 h1
+    have h2 := Ingest.not_truncates_of_small maxLen r1 (by rcases hlen with e | e; exact Or.inl e; exact Or.inr (by omega))
+    simp only [h1, h2] at h
+    cases h3 : strip r1 with
+    | error m => simp [h3] at h
+    | ok l' =>
+      simp only [h3, Bool.false_eq_true, if_false, Except.ok.injEq, Prod.mk.injEq] at h
+      obtain ⟨rfl, _⟩ := h
+      rcases Ingest.removeCr_cases U raw r1 h1 with e | ⟨a, t, w, e1, e2, e3, e4, e5⟩
+      · exact absurd e hne
+      · have := Ingest.crRemovedWhen_zero w _ _ e4
+        subst this
+        exact ⟨a, t, e1, e2, e3, e5⟩
+
+/-- `ingest_text_preserved_partial`: when the line is not truncated, `line` is the stripped
+`raw_line`, and `raw_line` is the input or the input without its last `\r` (zero-width tail) —
+no visible text is lost or changed. (Partial: truncated lines are the business of C01/C09.) -/
+theorem ingest_text_preserved_partial (U : Uni) (maxLen : Nat) (sym raw r l : Bytes)
+    (h : Ingest.ingest U maxLen sym raw = .ok (r, l)) (hlen : maxLen = 0 ∨ raw.length ≤ maxLen) :
+    strip r = .ok l ∧
+      (r = raw ∨ ∃ a t, raw = a ++ [0x0d] ++ t ∧ measure U t = .ok 0 ∧ r = a ++ t) := by
+  have hs : strip r = .ok l := by
+    unfold Ingest.ingest at h
+    cases h1 : Ingest.removeCr U raw with
+    | error m => simp [h1] at h
+    | ok r1 =>
+      have hle := Ingest.removeCr_length_le U raw r1 h1
+      have h2 := Ingest.not_truncates_of_small maxLen r1 (by rcases hlen with e | e; exact Or.inl e; exact Or.inr (by omega))
+      simp only [h1, h2] at h
+      cases h3 : strip r1 with
+      | error m => simp [h3] at h
+      | ok l' =>
+        simp only [h3, Bool.false_eq_true, if_false, Except.ok.injEq, Prod.mk.injEq] at h
+        obtain ⟨rfl, rfl⟩ := h
+        exact h3
+  refine ⟨hs, ?_⟩
+  by_cases hr : r = raw
+  · exact Or.inl hr
+  · obtain ⟨a, t, e1, _, e3, e4⟩ := ingest_cr_only_zero_width_tail U maxLen sym raw r l h hlen hr
+    exact Or.inr ⟨a, t, e1, e3, e4⟩
+
+/-- The CRLF remnant on benign lines (characters, SGR/CSI/OSC sequences): for `a ++ \r ++ t` with `t`
+free of `\r` and of width 0, `raw_line = a ++ t` and `line` is the text of `a` followed by the text
+of `t` — the visible text of the input minus that one `\r`. -/
+theorem ingest_crlf_remnant_benign (U : Uni) (hU : Additive U) (maxLen : Nat) (sym : Bytes)
+    (ta tt : List Tok) (hwa : ∀ x ∈ ta, x.WF) (hwt : ∀ x ∈ tt, x.WF)
+    (hcr : (0x0d : UInt8) ∉ tokBytes tt) (hw : U.width (plainOf tt) = 0)
+    (hlen : maxLen = 0 ∨ (tokBytes ta ++ [0x0d] ++ tokBytes tt).length ≤ maxLen) :
+    Ingest.ingest U maxLen sym (tokBytes ta ++ [0x0d] ++ tokBytes tt) =
+      .ok (tokBytes ta ++ tokBytes tt, plainOf ta ++ plainOf tt) := by
+  have hm : measure U (tokBytes tt) = .ok 0 := by rw [measure_tokens U hU tt hwt, hw]
+  have h1 : Ingest.removeCr U (tokBytes ta ++ [0x0d] ++ tokBytes tt) = .ok (tokBytes ta ++ tokBytes tt) := by
+    unfold Ingest.removeCr
+    rw [Ingest.lastCr_split _ _ hcr]
+    simp [hm, Ingest.crRemovedWhen_of_zero]
+  have hle : (tokBytes ta ++ tokBytes tt).length ≤ (tokBytes ta ++ [0x0d] ++ tokBytes tt).length := by simp
+  have h2 := Ingest.not_truncates_of_small maxLen (tokBytes ta ++ tokBytes tt)
+    (by rcases hlen with e | e; exact Or.inl e; exact Or.inr (by omega))
+  have hwf : ∀ x ∈ ta ++ tt, x.WF := by
+    intro x hx; rcases List.mem_append.mp hx with h | h
+    · exact hwa x h
+    · exact hwt x h
+  have e1 : tokBytes (ta ++ tt) = tokBytes ta ++ tokBytes tt := by
+    induction ta with
+    | nil => rfl
+    | cons y ys ih => simp [tokBytes, ih (fun x hx => hwa x (by simp [hx])) (by
+        intro x hx; rcases List.mem_append.mp hx with h | h
+        · exact hwa x (by simp [h])
+        · exact hwt x h)]
+  have e2 : plainOf (ta ++ tt) = plainOf ta ++ plainOf tt := by
+    clear hwa hwf e1 h1 hlen hle h2
+    induction ta with
+    | nil => rfl
+    | cons y ys ih => cases y <;> simp [plainOf, ih]
+  have h3 : strip (tokBytes ta ++ tokBytes tt) = .ok (plainOf ta ++ plainOf tt) := by
+    rw [← e1, ← e2]; exact strip_tokens _ hwf
+  simp [Ingest.ingest, h1, h2, h3]
+
+/-- Non-vacuity, with the small concrete Unicode oracle `demoUni`:
+`ab\r ESC[m` (CRLF remnant) loses its `\r`; `Fetching\r ESC[32m done ESC[m` (a progress line: text
+after the escape sequence) keeps it; `abcdef` is cut at `max-line-length 3`; `@@abcdef` is not. -/
+example :
+    Ingest.ingest demoUni 0 [] [0x61, 0x62, 0x0d, 0x1b, 0x5b, 0x6d] = .ok ([0x61, 0x62, 0x1b, 0x5b, 0x6d], [0x61, 0x62]) ∧
+    Ingest.ingest demoUni 0 [] [0x46, 0x0d, 0x1b, 0x5b, 0x33, 0x32, 0x6d, 0x64, 0x1b, 0x5b, 0x6d] =
+      .ok ([0x46, 0x0d, 0x1b, 0x5b, 0x33, 0x32, 0x6d, 0x64, 0x1b, 0x5b, 0x6d], [0x46, 0x0d, 0x64]) ∧
+    Ingest.ingest demoUni 3 [0x2e] [0x61, 0x62, 0x63, 0x64, 0x65, 0x66] = .ok ([0x61, 0x62, 0x2e], [0x61, 0x62, 0x2e]) ∧
+    Ingest.ingest demoUni 3 [0x2e] [0x40, 0x40, 0x61, 0x62, 0x63, 0x64] =
+      .ok ([0x40, 0x40, 0x61, 0x62, 0x63, 0x64], [0x40, 0x40, 0x61, 0x62, 0x63, 0x64]) := by
+  decide
+
+end IngestLine
 
 end C04
